@@ -3,6 +3,7 @@
 -/
 import TealerModel.Props.Common
 import TealerModel.Props.TieMatchers
+import TealerModel.Props.TieWorklist
 namespace Tealer.C10
 
 /-- attribution: a value is matched to an absolute-index key only if it is a group read whose index is classified
@@ -118,5 +119,19 @@ theorem C10_tie_int_push (intcs : Option (List Nat)) (op : Op) :
     /repo's instruction / field modules is a subclass of another one the analyses test for (`itxn` is not a `Txn`, `gitxn` not a
     `Gtxn`; only the `intc` family shares `IntcInstruction`) -/
 theorem C10_tie_class_hierarchy : Generated.classHierarchy = PyView.classHierarchySpec := Tie.class_hierarchy_tie
+
+/-- `_update_gtxn_constraints`, translated from /repo's Python on this run (one entry of its double loop over keys and indices),
+    is the model's `updateGtxn`: the context for "this transaction when it sits at index i" is the recorded one narrowed by the own
+    context when `i` is a possible own index of the block (membership in the block's index set - not a range between its smallest and
+    largest element), and EMPTY when `i` is impossible -/
+theorem C10_tie_update_gtxn {D : Type} [DecidableEq D] (A : Analysis D) (gi : List Nat) (i : Nat) (v base : D) :
+    Generated.updateGtxnConstraints A.dom gi i v base = updateGtxn A gi i v base :=
+  TieW.update_gtxn_tie A gi i v base
+
+/-- the clause "(and is empty when i is impossible)" of the property, on the model: an index outside the block's index set gets
+    the null set whatever was recorded -/
+theorem C10_impossible_index_empty {D : Type} [DecidableEq D] (A : Analysis D) (gi : List Nat) (i : Nat) (v base : D)
+    (h : i ∉ gi) : updateGtxn A gi i v base = A.dom.null := by
+  simp [updateGtxn, h]
 
 end Tealer.C10
